@@ -84,8 +84,12 @@ def program(E, cfg):
     if cfg["what"] == "profile":
         d = pyspike.spike_distance(a, b, **kw)
         E.observe("distance", d)
-        E.prove(E.eq(d * (te - ts), hx.pwl_integral(list(p.x), list(p.y1), list(p.y2))),
-                "distance = time average of the profile")
+        if cfg["backend"] == "py":
+            # same profile object: an aggregation identity in the profile values
+            ok = E.eq_abs(d * (te - ts), hx.pwl_integral(list(p.x), list(p.y1), list(p.y2)), list(p.y1) + list(p.y2))
+        else:
+            ok = E.eq(d * (te - ts), hx.pwl_integral(list(p.x), list(p.y1), list(p.y2)))
+        E.prove(ok, "distance = time average of the profile")
     else:
         t = E.fresh("t")
         E.assume(t >= ts)
